@@ -97,7 +97,7 @@ class Shard:
         "_seen",
     )
 
-    MAX_KEEP = 60
+    MAX_KEEP = 10**9 if os.environ.get("VERIF_DUMP") else 60
 
     def __init__(self, prop):
         self.prop = prop
@@ -277,6 +277,12 @@ def run_check(mod, tier, seed):
             flush=True,
         )
 
+    if os.environ.get("VERIF_DUMP"):
+        # developer aid (tools/regen_known.py): every unlisted violating case, one per line
+        with open(os.environ["VERIF_DUMP"], "w", encoding="utf8") as f:
+            for v in fresh:
+                f.write(canon({"key": v["key"], "kind": v["kind"], "case": v["case"],
+                               "obs": v["obs"], "observed": v["observed"]}) + "\n")
     exit_code = 0
     fresh.sort(key=lambda v: (len(canon(v["case"])), canon(v["case"])))
     for v in fresh[:25]:
